@@ -132,7 +132,7 @@ func (g *XG) Int(depth int) (gast.Expr, IntInfo) {
 		if g.C.Recv != "" {
 			alts = append(alts, alt{"method", 2})
 			if g.C.Probes {
-				alts = append(alts, alt{"probe", 2})
+				alts = append(alts, alt{"probe", 5})
 			}
 			if g.C.Hidden {
 				alts = append(alts, alt{"hidden", 2})
@@ -611,7 +611,7 @@ func (g *XG) Bool(depth int) gast.Expr {
 		if g.C.Recv != "" {
 			alts = append(alts, alt{"method", 1})
 			if g.C.Probes {
-				alts = append(alts, alt{"probe", 1})
+				alts = append(alts, alt{"probe", 4})
 			}
 		}
 		if g.C.Builtins {
